@@ -1,5 +1,5 @@
-(* C12 - the call path: which body runs, what self is, where its writes go, which statics a call can
-   touch, and rejection of types without an impl. *)
+(* C12 - the call path: which body runs, what self is, where its writes go, the impl-context stack, which
+   statics a call (nested to any depth) can touch, and rejection of types without an impl. *)
 From Coq Require Import List Arith Bool Ascii String ZArith Lia Permutation.
 From Cb Require Import C12.Model C12.Maps C12.Registry.
 Import ListNotations.
@@ -7,15 +7,21 @@ Local Open Scope string_scope.
 Local Open Scope list_scope.
 
 (* ---------- which body runs ---------- *)
-Lemma call_dispatches_l : forall ds r st rc l v t self d m arg,
+Lemma call_g_dispatches_l : forall run ds r st rc l v t self d m arg,
   wf_impls ds -> register_all empty_registry ds = inl r -> s_funcs st = r_funcs r ->
   receiver (s_vars st) rc = Some (l, v, t, self) ->
   In d ds -> i_type d = t -> In m (i_methods d) ->
-  call st rc (m_name m) arg = invoke st l v t self (mk_entry d m) arg.
+  call_g run st rc (m_name m) arg = invoke_g run st l v t self (mk_entry d m) arg.
 Proof.
-  intros ds r st rc l v t self d m arg W R F RC Hd Ht Hm.
-  unfold call. rewrite RC, F. subst t. rewrite (dispatch_registered_l ds r d m W R Hd Hm). reflexivity.
+  intros run ds r st rc l v t self d m arg W R F RC Hd Ht Hm.
+  unfold call_g. rewrite RC, F. subst t. rewrite (dispatch_registered_l ds r d m W R Hd Hm). reflexivity.
 Qed.
+Lemma call_dispatches_l : forall n hs ds r st rc l v t self d m arg,
+  wf_impls ds -> register_all empty_registry ds = inl r -> s_funcs st = r_funcs r ->
+  receiver (s_vars st) rc = Some (l, v, t, self) ->
+  In d ds -> i_type d = t -> In m (i_methods d) ->
+  call n hs st rc (m_name m) arg = invoke n hs st l v t self (mk_entry d m) arg.
+Proof. intros. unfold call, invoke. eapply call_g_dispatches_l; eauto. Qed.
 
 (* the receiver an interface variable denotes: its dynamic type is the implementing type it carries *)
 Lemma receiver_iface_var : forall vs x i t p, alookup x vs = Some (VIface i t p) ->
@@ -94,208 +100,101 @@ Proof.
     + rewrite alookup_aset_other; [reflexivity|]. intros ->. rewrite String.eqb_refl in E. discriminate.
 Qed.
 
-(* ---------- invoke: self in, self out ---------- *)
-(* the frame a method starts in: the impl context is the pair of the block that declares it *)
-Definition frame0 (fe : fentry) (self : payload) (arg : Z) (ss : list (string * Z)) (out : list line) : frame :=
-  {| f_self := self; f_arg := arg; f_statics := ss; f_ctx := Some (fe_iface fe, fe_type fe); f_out := out |}.
-
-Lemma run_method_inv : forall cb fe self arg ss out fr' z, run_method cb fe self arg ss out = inl (fr', z) ->
-  exec_body cb (frame0 fe self arg ss out) (m_body (fe_meth fe)) = inl fr' /\ eval fr' (m_ret (fe_meth fe)) = inl z.
+(* ---------- the impl-context stack (static.cpp enter_impl_context / exit_impl_context) ---------- *)
+(* an inactive context has nothing saved (true initially; enter makes the context active) *)
+Definition wf_ctx (c : ictx) : Prop := c_cur c = None -> c_stack c = [].
+Lemma wf_ctx0 : wf_ctx ctx0.
+Proof. intros _. reflexivity. Qed.
+Lemma wf_enter : forall c p, wf_ctx (enter_ctx c p).
+Proof. intros c p H. discriminate. Qed.
+Lemma enter_cur : forall c p, c_cur (enter_ctx c p) = Some p.
+Proof. reflexivity. Qed.
+Lemma exit_enter : forall c p, wf_ctx c -> exit_ctx (enter_ctx c p) = c.
 Proof.
-  unfold run_method, frame0; intros cb fe self arg ss out fr' z H.
-  destruct (exec_body cb _ (m_body (fe_meth fe))) as [fr1|x] eqn:B; [|discriminate].
-  destruct (eval fr1 (m_ret (fe_meth fe))) as [z1|x] eqn:E; [|discriminate].
-  inversion H; subst. auto.
+  intros [[q|] stk] p W; unfold enter_ctx, exit_ctx; simpl.
+  - reflexivity.
+  - unfold wf_ctx in W. simpl in W. rewrite (W eq_refl). reflexivity.
 Qed.
 
-Lemma invoke_ok_inv : forall st l v t self fe arg st' z,
-  invoke st l v t self fe arg = Ok (st', z) ->
-  exists fr', run_method (nested_self (s_funcs st) t) fe self arg (s_statics st) (s_out st) = inl (fr', z) /\
+(* any well-nested history of enter / exit leaves the context (current pair AND saved stack) as it was *)
+Inductive cact := CEnter (p : name * name) | CExit.
+Definition do_act (c : ictx) (a : cact) : ictx := match a with CEnter p => enter_ctx c p | CExit => exit_ctx c end.
+Definition run_acts (c : ictx) (w : list cact) : ictx := fold_left do_act w c.
+Inductive balanced : list cact -> Prop :=
+| bal_nil : balanced []
+| bal_call : forall p w1 w2, balanced w1 -> balanced w2 -> balanced (CEnter p :: w1 ++ CExit :: w2).
+Lemma balanced_restores : forall w, balanced w -> forall c, wf_ctx c -> run_acts c w = c.
+Proof.
+  induction 1 as [|p w1 w2 B1 IH1 B2 IH2]; intros c W; [reflexivity|].
+  unfold run_acts. simpl. rewrite fold_left_app. simpl.
+  fold (run_acts (enter_ctx c p) w1). rewrite (IH1 _ (wf_enter c p)).
+  rewrite (exit_enter c p W). apply IH2; assumption.
+Qed.
+(* ... and inside the nesting the current pair is the one entered last *)
+Lemma balanced_inner_cur : forall w c p, balanced w -> c_cur (run_acts (enter_ctx c p) w) = Some p.
+Proof. intros w c p B. rewrite (balanced_restores w B _ (wf_enter c p)). reflexivity. Qed.
+
+(* ---------- inversion of the call path ---------- *)
+Lemma invoke_g_ok_inv : forall run st l v t self fe arg st' z,
+  invoke_g run st l v t self fe arg = Ok (st', z) ->
+  exists fr', run fe t self arg st = inl (fr', z) /\
               s_vars st' = write (s_vars st) l (with_payload v (f_self fr')) /\
               s_statics st' = f_statics fr' /\ s_out st' = f_out fr' /\
-              s_funcs st' = s_funcs st /\ s_impls st' = s_impls st /\ s_ctx st' = s_ctx st.
+              s_funcs st' = s_funcs st /\ s_impls st' = s_impls st /\ s_ctx st' = exit_ctx (f_ctx fr').
 Proof.
-  unfold invoke; intros st l v t self fe arg st' z H.
-  destruct (run_method _ fe self arg (s_statics st) (s_out st)) as [[fr' z0]|[o x]] eqn:B; [|discriminate].
+  unfold invoke_g; intros run st l v t self fe arg st' z H.
+  destruct (run fe t self arg st) as [[fr' z0]|[o x]] eqn:B; [|discriminate].
   inversion H; subst; clear H. exists fr'. simpl. repeat split; auto.
 Qed.
-
-(* ---------- statics: what a body can touch ---------- *)
-Definition ctx_keys (c : option (name * name)) (k : string) : Prop := exists n, static_name c n = Some k.
-(* what a nested call may do to the caller's frame: everything but statics/out is as before, no static
-   cell appears or disappears, and only cells in P change *)
-Definition cb_ok (P : string -> Prop) (cb : callback) : Prop :=
-  forall m z fr fr1 r, cb m z fr = inl (fr1, r) ->
-    f_ctx fr1 = f_ctx fr /\ f_self fr1 = f_self fr /\ f_arg fr1 = f_arg fr /\
-    keys (f_statics fr1) = keys (f_statics fr) /\
-    (forall k, ~ P k -> alookup k (f_statics fr1) = alookup k (f_statics fr)).
-Definition is_call (s : stmt) : bool := match s with SCallSelf _ _ _ => true | _ => false end.
-Definition has_calls (b : list stmt) : bool := existsb is_call b.
-
-Lemma exec_stmt_frame : forall P cb fr s fr', (is_call s = false \/ cb_ok P cb) ->
-  (forall k, ctx_keys (f_ctx fr) k -> P k) -> exec_stmt cb fr s = inl fr' ->
-  f_ctx fr' = f_ctx fr /\ f_arg fr' = f_arg fr /\
-  keys (f_statics fr') = keys (f_statics fr) /\
-  (forall k, ~ P k -> alookup k (f_statics fr') = alookup k (f_statics fr)).
-Proof.
-  intros P cb fr s fr' HC HP H. destruct s as [f e|n e|tag es|tag m e]; simpl in H.
-  - destruct (eval fr e); [|discriminate]. destruct (f_self fr); [|discriminate].
-    destruct (alookup f fs); [|discriminate]. destruct (int_ok z); [|discriminate].
-    inversion H; subst; simpl. auto.
-  - destruct (eval fr e); [|discriminate].
-    destruct (static_name (f_ctx fr) n) as [k|] eqn:SN; [|discriminate].
-    destruct (alookup k (f_statics fr)) eqn:A; [|discriminate]. destruct (int_ok z); [|discriminate].
-    inversion H; subst; simpl. split; [reflexivity|split; [reflexivity|split]].
-    + apply keys_aset_present. apply alookup_in_keys. eauto.
-    + intros k' NK. apply alookup_aset_other. intros ->. apply NK. apply HP. exists n. assumption.
-  - destruct (eval_list fr es); [|discriminate]. inversion H; subst; simpl. auto.
-  - destruct HC as [HC|HC]; [discriminate|].
-    destruct (eval fr e); [|discriminate].
-    destruct (cb m z fr) as [[fr1 r]|] eqn:C; [|discriminate].
-    inversion H; subst; simpl. destruct (HC _ _ _ _ _ C) as [A [_ [B [K F]]]]. auto.
-Qed.
-
-Lemma exec_body_frame : forall P cb b fr fr', (has_calls b = false \/ cb_ok P cb) ->
-  (forall k, ctx_keys (f_ctx fr) k -> P k) -> exec_body cb fr b = inl fr' ->
-  f_ctx fr' = f_ctx fr /\ f_arg fr' = f_arg fr /\
-  keys (f_statics fr') = keys (f_statics fr) /\
-  (forall k, ~ P k -> alookup k (f_statics fr') = alookup k (f_statics fr)).
-Proof.
-  intros P cb. induction b as [|s b IH]; simpl; intros fr fr' HC HP H.
-  - inversion H; subst. auto.
-  - destruct (exec_stmt cb fr s) as [fr1|] eqn:S; [|discriminate].
-    assert (is_call s = false \/ cb_ok P cb) as HC1.
-    { destruct HC as [HC|HC]; [left|right; assumption]. unfold has_calls in HC. simpl in HC. apply orb_false_iff in HC. tauto. }
-    assert (has_calls b = false \/ cb_ok P cb) as HC2.
-    { destruct HC as [HC|HC]; [left|right; assumption]. unfold has_calls in HC. simpl in HC. apply orb_false_iff in HC. tauto. }
-    destruct (exec_stmt_frame _ _ _ _ _ HC1 HP S) as [C1 [A1 [K1 F1]]].
-    assert (forall k, ctx_keys (f_ctx fr1) k -> P k) as HP1 by (rewrite C1; assumption).
-    destruct (IH _ _ HC2 HP1 H) as [C2 [A2 [K2 F2]]].
-    split; [congruence|split; [congruence|split; [congruence|]]].
-    intros k NK. rewrite F2 by assumption. apply F1; assumption.
-Qed.
-
-Lemma run_method_frame : forall P cb fe self arg ss out fr' z,
-  (has_calls (m_body (fe_meth fe)) = false \/ cb_ok P cb) ->
-  (forall k, ctx_keys (Some (fe_iface fe, fe_type fe)) k -> P k) ->
-  run_method cb fe self arg ss out = inl (fr', z) ->
-  keys (f_statics fr') = keys ss /\ (forall k, ~ P k -> alookup k (f_statics fr') = alookup k ss).
-Proof.
-  intros P cb fe self arg ss out fr' z HC HP H. apply run_method_inv in H as [B _].
-  destruct (exec_body_frame P cb _ (frame0 fe self arg ss out) _ HC HP B) as [_ [_ [K F]]]. auto.
-Qed.
-
-Lemma no_nested_ok : forall P, cb_ok P no_nested.
-Proof. intros P m z fr fr1 r H. discriminate. Qed.
-
-(* a nested self call touches only the statics of the callee's own pair; with a well-typed function
-   table that pair has the caller's type *)
-Definition funcs_typed (fs : list (string * fentry)) : Prop :=
-  forall t n fe, alookup (method_key t n) fs = Some fe -> fe_type fe = t.
-Definition type_keys (t : name) (k : string) : Prop := exists i n, k = static_key i t n.
-
-Lemma nested_self_inv : forall funcs t m z fr fr1 r, nested_self funcs t m z fr = inl (fr1, r) ->
-  exists fe fr', alookup (method_key t m) funcs = Some fe /\
-    run_method no_nested fe (f_self fr) z (f_statics fr) (f_out fr) = inl (fr', r) /\
-    fr1 = {| f_self := f_self fr; f_arg := f_arg fr; f_statics := f_statics fr'; f_ctx := f_ctx fr; f_out := f_out fr' |}.
-Proof.
-  unfold nested_self; intros funcs t m z fr fr1 r H.
-  destruct (alookup (method_key t m) funcs) as [fe|]; [|discriminate].
-  destruct (run_method no_nested fe (f_self fr) z (f_statics fr) (f_out fr)) as [[fr' z0]|] eqn:R; [|discriminate].
-  inversion H; subst. eauto.
-Qed.
-
-Lemma nested_self_ok_any : forall funcs t, cb_ok (fun _ => True) (nested_self funcs t).
-Proof.
-  intros funcs t m z fr fr1 r H. apply nested_self_inv in H as [fe [fr' [_ [R ->]]]]. simpl.
-  destruct (run_method_frame (fun _ => True) no_nested _ _ _ _ _ _ _ (or_intror (no_nested_ok _)) (fun _ _ => I) R) as [K _].
-  repeat split; auto. intros k NK. exfalso. apply NK. exact I.
-Qed.
-Lemma nested_self_ok_typed : forall funcs t, funcs_typed funcs -> cb_ok (type_keys t) (nested_self funcs t).
-Proof.
-  intros funcs t FT m z fr fr1 r H. apply nested_self_inv in H as [fe [fr' [L [R ->]]]]. simpl.
-  assert (forall k, ctx_keys (Some (fe_iface fe, fe_type fe)) k -> type_keys t k) as HP.
-  { intros k [n E]. simpl in E. inversion E. rewrite (FT _ _ _ L). exists (fe_iface fe), n. reflexivity. }
-  destruct (run_method_frame (type_keys t) no_nested _ _ _ _ _ _ _ (or_intror (no_nested_ok _)) HP R) as [K F].
-  repeat split; auto.
-Qed.
-
-Lemma registered_funcs_typed : forall ds r, wf_impls ds -> register_all empty_registry ds = inl r -> funcs_typed (r_funcs r).
-Proof.
-  intros ds r W R t n fe H. destruct (dispatch_sound_l _ _ _ _ _ W R H) as [d [m [_ [Ht [_ [_ ->]]]]]]. exact Ht.
-Qed.
-
-Lemma call_ok_inv : forall st rc m arg st' z, call st rc m arg = Ok (st', z) ->
+Lemma call_g_ok_inv : forall run st rc m arg st' z, call_g run st rc m arg = Ok (st', z) ->
   exists l v t self fe,
     receiver (s_vars st) rc = Some (l, v, t, self) /\
     alookup (method_key t m) (s_funcs st) = Some fe /\
-    invoke st l v t self fe arg = Ok (st', z).
+    invoke_g run st l v t self fe arg = Ok (st', z).
 Proof.
-  unfold call; intros st rc m arg st' z H.
+  unfold call_g; intros run st rc m arg st' z H.
   destruct (receiver (s_vars st) rc) as [[[[l v] t] self]|] eqn:RC; [|discriminate].
   destruct (alookup (method_key t m) (s_funcs st)) as [fe|] eqn:F; [|discriminate].
   exists l, v, t, self, fe. auto.
 Qed.
-
-(* no static cell ever appears or disappears in a call; the impl context is put back *)
-Lemma call_keys_l : forall st rc m arg st' z, call st rc m arg = Ok (st', z) ->
-  keys (s_statics st') = keys (s_statics st) /\ s_ctx st' = s_ctx st.
+Lemma run_method_g_inv : forall run hs fe t self arg st fr' z, run_method_g run hs fe t self arg st = inl (fr', z) ->
+  exec_body run hs st t (frame0 fe self arg st) (m_body (fe_meth fe)) = inl fr' /\
+  (if m_void (fe_meth fe) then z = 0%Z else eval fr' (m_ret (fe_meth fe)) = inl z).
 Proof.
-  intros st rc m arg st' z H.
-  destruct (call_ok_inv _ _ _ _ _ _ H) as [l [v [t [self [fe [RC [F IV]]]]]]].
-  destruct (invoke_ok_inv _ _ _ _ _ _ _ _ _ IV) as [fr' [B [_ [S [_ [_ [_ C]]]]]]].
-  destruct (run_method_frame (fun _ => True) _ _ _ _ _ _ _ _ (or_intror (nested_self_ok_any _ _)) (fun _ _ => I) B) as [K _].
-  split; [rewrite S; assumption|assumption].
+  unfold run_method_g; intros run hs fe t self arg st fr' z H.
+  destruct (exec_body run hs st t _ (m_body (fe_meth fe))) as [fr1|x] eqn:B; [|discriminate].
+  destruct (m_void (fe_meth fe)).
+  - inversion H; subst. auto.
+  - destruct (eval fr1 (m_ret (fe_meth fe))) as [z1|x] eqn:E; [|discriminate]. inversion H; subst. auto.
+Qed.
+Lemma nested_self_g_inv : forall run g t m z fr fr1 r, nested_self_g run g t m z fr = inl (fr1, r) ->
+  exists fe fr', alookup (method_key t m) (s_funcs g) = Some fe /\
+    run fe t (f_self fr) z (st_of g fr) = inl (fr', r) /\
+    fr1 = {| f_self := if m_void (fe_meth fe) then f_self fr' else f_self fr; f_arg := f_arg fr; f_vars := f_vars fr;
+             f_statics := f_statics fr'; f_ctx := exit_ctx (f_ctx fr'); f_out := f_out fr' |}.
+Proof.
+  unfold nested_self_g; intros run g t m z fr fr1 r H.
+  destruct (alookup (method_key t m) (s_funcs g)) as [fe|]; [|discriminate].
+  destruct (run fe t (f_self fr) z (st_of g fr)) as [[fr' z0]|] eqn:R; [|discriminate].
+  inversion H; subst. eauto.
 Qed.
 
-(* a call on a receiver of dynamic type t changes no static of a pair with another type ... *)
-Lemma call_statics_type_l : forall st rc m arg st' z l v t self, funcs_typed (s_funcs st) ->
-  call st rc m arg = Ok (st', z) -> receiver (s_vars st) rc = Some (l, v, t, self) ->
-  forall k, ~ type_keys t k -> alookup k (s_statics st') = alookup k (s_statics st).
+(* ---------- what every call preserves: the impl context, the set of static cells, the tables ---------- *)
+Definition run_basic (run : runner) : Prop := forall fe t self arg st fr' z,
+  wf_ctx (s_ctx st) -> run fe t self arg st = inl (fr', z) ->
+  exit_ctx (f_ctx fr') = s_ctx st /\ keys (f_statics fr') = keys (s_statics st).
+Definition call_basic (call : caller) : Prop := forall st r m arg st' z,
+  wf_ctx (s_ctx st) -> call st r m arg = Ok (st', z) ->
+  s_ctx st' = s_ctx st /\ keys (s_statics st') = keys (s_statics st) /\ s_funcs st' = s_funcs st /\ s_impls st' = s_impls st.
+
+Lemma call_g_basic : forall run, run_basic run -> call_basic (call_g run).
 Proof.
-  intros st rc m arg st' z l v t self FT H RC k NK.
-  destruct (call_ok_inv _ _ _ _ _ _ H) as [l0 [v0 [t0 [self0 [fe [RC0 [F IV]]]]]]].
-  rewrite RC in RC0. inversion RC0; subst l0 v0 t0 self0.
-  destruct (invoke_ok_inv _ _ _ _ _ _ _ _ _ IV) as [fr' [B [_ [S _]]]].
-  assert (forall k, ctx_keys (Some (fe_iface fe, fe_type fe)) k -> type_keys t k) as HP.
-  { intros k0 [n E]. simpl in E. inversion E. rewrite (FT _ _ _ F). exists (fe_iface fe), n. reflexivity. }
-  destruct (run_method_frame (type_keys t) _ _ _ _ _ _ _ _ (or_intror (nested_self_ok_typed _ _ FT)) HP B) as [_ FR].
-  rewrite S. apply FR; assumption.
-Qed.
-(* ... and when the method's body makes no nested call, only statics of the pair that declares it *)
-Lemma call_statics_leaf_l : forall st rc m arg st' z l v t self fe,
-  call st rc m arg = Ok (st', z) -> receiver (s_vars st) rc = Some (l, v, t, self) ->
-  alookup (method_key t m) (s_funcs st) = Some fe -> has_calls (m_body (fe_meth fe)) = false ->
-  forall k, ~ ctx_keys (Some (fe_iface fe, fe_type fe)) k -> alookup k (s_statics st') = alookup k (s_statics st).
-Proof.
-  intros st rc m arg st' z l v t self fe H RC F HC k NK.
-  destruct (call_ok_inv _ _ _ _ _ _ H) as [l0 [v0 [t0 [self0 [fe0 [RC0 [F0 IV]]]]]]].
-  rewrite RC in RC0. inversion RC0; subst l0 v0 t0 self0. rewrite F in F0. inversion F0; subst fe0.
-  destruct (invoke_ok_inv _ _ _ _ _ _ _ _ _ IV) as [fr' [B [_ [S _]]]].
-  destruct (run_method_frame (ctx_keys (Some (fe_iface fe, fe_type fe))) _ _ _ _ _ _ _ _ (or_introl HC) (fun _ h => h) B) as [_ FR].
-  rewrite S. apply FR; assumption.
+  intros run RB st r m arg st' z W H.
+  destruct (call_g_ok_inv _ _ _ _ _ _ _ H) as [l [v [t [self [fe [_ [_ IV]]]]]]].
+  destruct (invoke_g_ok_inv _ _ _ _ _ _ _ _ _ _ IV) as [fr' [B [_ [S [_ [F [I C]]]]]]].
+  destruct (RB _ _ _ _ _ _ _ W B) as [E K]. rewrite C, S. auto.
 Qed.
 
-Lemma ctx_keys_other_pair : forall i t i' t' n', no_colon i = true -> no_colon i' = true ->
-  no_colon t = true -> no_colon t' = true -> (i', t') <> (i, t) -> ~ ctx_keys (Some (i, t)) (static_key i' t' n').
-Proof.
-  intros i t i' t' n' Hi Hi' Ht Ht' NE [n H]. unfold static_name in H.
-  assert (static_key i t n = static_key i' t' n') as E by congruence.
-  apply static_key_inj in E as [-> [-> _]]; auto.
-Qed.
-Lemma type_keys_other_type : forall t i' t' n', no_colon i' = true -> no_colon t = true -> no_colon t' = true ->
-  no_colon n' = true -> t' <> t -> ~ type_keys t (static_key i' t' n').
-Proof.
-  intros t i' t' n' Hi' Ht Ht' Hn' NE [i [n E]].
-  assert (no_colon i = true) as Hi.
-  { assert (ncolon (static_key i' t' n') = ncolon (static_key i t n)) as N by (rewrite E; reflexivity).
-    unfold static_key in N. rewrite !ncolon_app in N. simpl in N.
-    apply no_colon_ncolon in Hi'. apply no_colon_ncolon in Ht. apply no_colon_ncolon in Ht'. apply no_colon_ncolon in Hn'.
-    apply no_colon_ncolon. lia. }
-  apply static_key_inj in E as [_ [E _]]; auto.
-Qed.
-
-(* ---------- binding ---------- *)
 Definition src_view (v : value) : option (name * payload) :=
   match v with VConc t p => Some (t, p) | VIface _ t p => Some (t, p) | _ => None end.
 
@@ -319,6 +218,443 @@ Proof.
     + inversion H; reflexivity.
 Qed.
 
+(* the facts `call_basic` speaks about, as one relation between states *)
+Definition same_frame (st st' : state) : Prop :=
+  s_ctx st' = s_ctx st /\ keys (s_statics st') = keys (s_statics st) /\ s_funcs st' = s_funcs st /\ s_impls st' = s_impls st.
+Lemma same_frame_refl : forall st, same_frame st st.
+Proof. intros; repeat split. Qed.
+Lemma same_frame_trans : forall a b c, same_frame a b -> same_frame b c -> same_frame a c.
+Proof. intros a b c [A1 [A2 [A3 A4]]] [B1 [B2 [B3 B4]]]. repeat split; congruence. Qed.
+Lemma same_frame_set_vars : forall st vs, same_frame st (set_vars st vs).
+Proof. intros; repeat split. Qed.
+Lemma same_frame_emit : forall st l, same_frame st (emit st l).
+Proof. intros; repeat split. Qed.
+
+Lemma run_calls_g_basic : forall call, call_basic call -> forall cs st tag rc d st',
+  wf_ctx (s_ctx st) -> run_calls_g call st tag rc d cs = Ok st' -> same_frame st st'.
+Proof.
+  intros call CB. induction cs as [|[m c] cs IH]; simpl; intros st tag rc d st' W H.
+  - inversion H; subst. apply same_frame_refl.
+  - destruct (call st rc m (d + c)%Z) as [[st1 z]|] eqn:C; [|discriminate].
+    pose proof (CB _ _ _ _ _ _ W C) as SF.
+    eapply same_frame_trans; [exact SF|].
+    eapply same_frame_trans; [apply (same_frame_emit st1 (tag, [z]))|].
+    apply (IH _ _ _ _ _ ) with (2 := H). simpl. destruct SF as [-> _]. assumption.
+Qed.
+
+Lemma step_g_basic : forall call hs, call_basic call -> forall st o st',
+  wf_ctx (s_ctx st) -> step_g call hs st o = Ok st' -> same_frame st st'.
+Proof.
+  intros call hs CB st o st' W H. destruct o; cbn [step_g] in H.
+  - apply bind_ok_inv in H as [sv [t [p [_ [_ [_ ->]]]]]]. apply same_frame_set_vars.
+  - destruct (alookup x (s_vars st)); inversion H; subst. apply same_frame_set_vars.
+  - destruct (call st r m arg) as [[st1 z]|] eqn:C; [|discriminate]. inversion H; subst.
+    eapply same_frame_trans; [exact (CB _ _ _ _ _ _ W C)|apply same_frame_emit].
+  - destruct (find _ hs) as [hh|]; [|discriminate].
+    match type of H with match ?E with _ => _ end = _ => destruct E as [st1|] eqn:EN; [|discriminate] end.
+    destruct (run_calls_g call st1 h (RVar (h_param hh)) d (h_calls hh)) as [st2|] eqn:RCs; [|discriminate].
+    inversion H; subst.
+    assert (same_frame st st1) as S1.
+    { destruct (h_iface hh).
+      - apply bind_ok_inv in EN as [sv [t [p [_ [_ [_ ->]]]]]]. repeat split.
+      - destruct (alookup src (s_vars st)) as [[| | |]|]; inversion EN; subst. apply same_frame_set_vars. }
+    eapply same_frame_trans; [exact S1|].
+    eapply same_frame_trans; [|apply same_frame_set_vars].
+    eapply run_calls_g_basic; eauto. destruct S1 as [-> _]. assumption.
+  - destruct (alookup x (s_vars st)) as [[t [fs|v]| | |]|]; try discriminate.
+    + destruct (alookup f fs); inversion H; subst. apply same_frame_set_vars.
+    + inversion H; subst. apply same_frame_set_vars.
+  - destruct (read (s_vars st) (LElem a i)) as [[t [fs|v]| | |]|]; try discriminate.
+    destruct (alookup f fs); inversion H; subst. apply same_frame_set_vars.
+  - destruct (alookup x (s_vars st)) as [[| | |]|]; inversion H; subst; apply same_frame_emit.
+Qed.
+
+(* a body statement - including a call nested to any depth - leaves the body's impl context, its argument
+   and the set of static cells as they were *)
+Lemma exec_stmt_basic : forall run hs g t, run_basic run -> forall s fr fr',
+  wf_ctx (f_ctx fr) -> exec_stmt run hs g t fr s = inl fr' ->
+  f_ctx fr' = f_ctx fr /\ f_arg fr' = f_arg fr /\ keys (f_statics fr') = keys (f_statics fr).
+Proof.
+  intros run hs g t RB. induction s as [f e|n e|tag es|tag m e|o|ge s IH]; intros fr fr' W H; cbn [exec_stmt] in H.
+  - destruct (eval fr e); [|discriminate]. destruct (f_self fr); [|discriminate].
+    destruct (alookup f fs); [|discriminate]. destruct (int_ok z); [|discriminate].
+    inversion H; subst; simpl. auto.
+  - destruct (eval fr e); [|discriminate].
+    destruct (static_name (c_cur (f_ctx fr)) n) as [k|] eqn:SN; [|discriminate].
+    destruct (alookup k (f_statics fr)) eqn:A; [|discriminate]. destruct (int_ok z); [|discriminate].
+    inversion H; subst; simpl. split; [reflexivity|split; [reflexivity|]].
+    apply keys_aset_present. apply alookup_in_keys. eauto.
+  - destruct (eval_list fr es); [|discriminate]. inversion H; subst; simpl. auto.
+  - destruct (eval fr e); [|discriminate].
+    destruct (nested_self_g run g t m z fr) as [[fr1 r]|] eqn:C; [|discriminate].
+    inversion H; subst; simpl. apply nested_self_g_inv in C as [fe [fr2 [_ [R ->]]]]. simpl.
+    destruct (RB fe t (f_self fr) z (st_of g fr) fr2 r W R) as [E K]. simpl in E, K. auto.
+  - destruct (step_g (call_g run) hs (st_of g fr) o) as [st'|] eqn:S; [|discriminate].
+    inversion H; subst; simpl.
+    destruct (step_g_basic _ hs (call_g_basic _ RB) (st_of g fr) o st' W S) as [C [K _]]. simpl in C, K. auto.
+  - destruct (eval fr ge); [|discriminate]. destruct (0 <? z)%Z.
+    + apply IH; assumption.
+    + inversion H; subst. auto.
+Qed.
+Lemma exec_body_basic : forall run hs g t, run_basic run -> forall b fr fr',
+  wf_ctx (f_ctx fr) -> exec_body run hs g t fr b = inl fr' ->
+  f_ctx fr' = f_ctx fr /\ f_arg fr' = f_arg fr /\ keys (f_statics fr') = keys (f_statics fr).
+Proof.
+  intros run hs g t RB. induction b as [|s b IH]; simpl; intros fr fr' W H.
+  - inversion H; subst. auto.
+  - destruct (exec_stmt run hs g t fr s) as [fr1|] eqn:S; [|discriminate].
+    destruct (exec_stmt_basic _ _ _ _ RB _ _ _ W S) as [C1 [A1 K1]].
+    assert (wf_ctx (f_ctx fr1)) as W1 by (rewrite C1; assumption).
+    destruct (IH _ _ W1 H) as [C2 [A2 K2]]. repeat split; congruence.
+Qed.
+
+Lemma run_method_g_basic : forall run hs, run_basic run -> run_basic (run_method_g run hs).
+Proof.
+  intros run hs RB fe t self arg st fr' z W H. apply run_method_g_inv in H as [B _].
+  destruct (exec_body_basic _ _ _ _ RB _ (frame0 fe self arg st) _ (wf_enter _ _) B) as [C [_ K]]. simpl in C, K.
+  rewrite C. split; [apply exit_enter; assumption|assumption].
+Qed.
+Lemma run_n_basic : forall n hs, run_basic (run_n n hs).
+Proof.
+  induction n as [|n IH]; intros hs.
+  - intros fe t self arg st fr' z _ H. discriminate.
+  - simpl. apply run_method_g_basic. apply IH.
+Qed.
+Lemma call_n_basic : forall n hs, call_basic (call n hs).
+Proof. intros. apply call_g_basic. apply run_n_basic. Qed.
+
+(* ---------- statics: what a call can touch ---------- *)
+Definition ctx_keys (c : option (name * name)) (k : string) : Prop := exists n, static_name c n = Some k.
+Definition funcs_typed (fs : list (string * fentry)) : Prop :=
+  forall t n fe, alookup (method_key t n) fs = Some fe -> fe_type fe = t.
+(* the cells of the pairs whose type is in TS *)
+Definition types_keys (TS : name -> Prop) (k : string) : Prop := exists i t n, TS t /\ k = static_key i t n.
+Definition typed_val (TS : name -> Prop) (v : value) : Prop :=
+  match v with VConc t _ | VIface _ t _ | VArr t _ => TS t | VPtr _ => True end.
+Definition vars_typed (TS : name -> Prop) (vs : list (name * value)) : Prop := forall x v, In (x, v) vs -> typed_val TS v.
+(* TS is closed under "declares an object of": every method of a TS type declares objects of TS types only *)
+Definition closed (fs : list (string * fentry)) (TS : name -> Prop) : Prop :=
+  forall k fe, alookup k fs = Some fe -> TS (fe_type fe) -> vars_typed TS (m_locals (fe_meth fe)).
+
+Lemma alookup_In : forall (A : Type) k (l : list (string * A)) v, alookup k l = Some v -> In (k, v) l.
+Proof.
+  induction l as [|[k0 v0] r IH]; simpl; intros v H; [discriminate|].
+  destruct (String.eqb k k0) eqn:E.
+  - apply String.eqb_eq in E; subst. inversion H; auto.
+  - right. apply IH; assumption.
+Qed.
+Lemma In_aset : forall (A : Type) k (v : A) l x w, In (x, w) (aset k v l) -> (x, w) = (k, v) \/ In (x, w) l.
+Proof.
+  induction l as [|[k0 v0] r IH]; simpl; intros x w H.
+  - destruct H as [H|[]]; auto.
+  - destruct (String.eqb k k0); simpl in H.
+    + destruct H as [H|H]; auto.
+    + destruct H as [H|H]; auto. destruct (IH _ _ H); auto.
+Qed.
+Lemma In_aremove : forall (A : Type) k (l : list (string * A)) x w, In (x, w) (aremove k l) -> In (x, w) l.
+Proof.
+  induction l as [|[k0 v0] r IH]; simpl; intros x w H; [assumption|].
+  destruct (String.eqb k k0); simpl in H; [auto|]. destruct H as [H|H]; auto.
+Qed.
+Lemma vars_typed_aset : forall TS vs x v, vars_typed TS vs -> typed_val TS v -> vars_typed TS (aset x v vs).
+Proof. intros TS vs x v H T y w I. apply In_aset in I as [E|I]; [inversion E; subst; assumption|eapply H; eauto]. Qed.
+Lemma vars_typed_aremove : forall TS vs x, vars_typed TS vs -> vars_typed TS (aremove x vs).
+Proof. intros TS vs x H y w I. apply In_aremove in I. eapply H; eauto. Qed.
+Lemma read_typed : forall TS vs l v, vars_typed TS vs -> read vs l = Some v -> typed_val TS v.
+Proof.
+  intros TS vs l v H R. destruct l as [x|a k]; simpl in R.
+  - apply alookup_In in R. eapply H; eauto.
+  - destruct (alookup a vs) as [[| | |t es]|] eqn:A; try discriminate.
+    destruct (nth_error es k); [|discriminate]. inversion R; subst. simpl.
+    apply alookup_In in A. apply (H _ _ A).
+Qed.
+Lemma receiver_typed : forall TS vs rc l v t self, vars_typed TS vs -> receiver vs rc = Some (l, v, t, self) ->
+  TS t /\ typed_val TS v.
+Proof.
+  unfold receiver; intros TS vs rc l v t self H R.
+  destruct (resolve vs rc) as [l0|]; [|discriminate]. destruct (read vs l0) as [v0|] eqn:RD; [|discriminate].
+  destruct (obj_of v0) as [[t0 s0]|] eqn:O; [|discriminate]. inversion R; subst.
+  pose proof (read_typed _ _ _ _ H RD) as T. split; [|assumption].
+  destruct v as [t1 p1|i1 t1 p1| |]; simpl in O; try discriminate; inversion O; subst; exact T.
+Qed.
+Lemma typed_with_payload : forall TS v p, typed_val TS v -> typed_val TS (with_payload v p).
+Proof. intros TS [t q|i t q|x|t es] p H; exact H. Qed.
+Lemma write_typed : forall TS vs l v, vars_typed TS vs -> typed_val TS v -> vars_typed TS (write vs l v).
+Proof.
+  intros TS vs l v H T. destruct l as [x|a k]; simpl.
+  - apply vars_typed_aset; assumption.
+  - destruct (alookup a vs) as [[| | |t es]|] eqn:A; try assumption.
+    destruct v; try assumption. apply vars_typed_aset; [assumption|].
+    apply alookup_In in A. exact (H _ _ A).
+Qed.
+
+Definition run_sep (TS : name -> Prop) (run : runner) : Prop := forall fe t self arg st fr' z,
+  funcs_typed (s_funcs st) -> closed (s_funcs st) TS -> wf_ctx (s_ctx st) -> TS t -> fe_type fe = t ->
+  (exists k, alookup k (s_funcs st) = Some fe) ->
+  run fe t self arg st = inl (fr', z) ->
+  forall k, ~ types_keys TS k -> alookup k (f_statics fr') = alookup k (s_statics st).
+(* a scope whose objects have TS types: what one call does to it *)
+Definition call_sep (TS : name -> Prop) (call : caller) : Prop := forall st r m arg st' z,
+  funcs_typed (s_funcs st) -> closed (s_funcs st) TS -> wf_ctx (s_ctx st) -> vars_typed TS (s_vars st) ->
+  call st r m arg = Ok (st', z) ->
+  vars_typed TS (s_vars st') /\ forall k, ~ types_keys TS k -> alookup k (s_statics st') = alookup k (s_statics st).
+
+Lemma call_g_sep : forall TS run, run_sep TS run -> call_sep TS (call_g run).
+Proof.
+  intros TS run RS st r m arg st' z FT CL W VT H.
+  destruct (call_g_ok_inv _ _ _ _ _ _ _ H) as [l [v [t [self [fe [RC [F IV]]]]]]].
+  destruct (invoke_g_ok_inv _ _ _ _ _ _ _ _ _ _ IV) as [fr' [B [V [S _]]]].
+  destruct (receiver_typed _ _ _ _ _ _ _ VT RC) as [Tt Tv].
+  split.
+  - rewrite V. apply write_typed; [assumption|apply typed_with_payload; assumption].
+  - intros k NK. rewrite S. eapply RS; eauto.
+Qed.
+
+Definition sep_frame (TS : name -> Prop) (st st' : state) : Prop :=
+  vars_typed TS (s_vars st') /\ forall k, ~ types_keys TS k -> alookup k (s_statics st') = alookup k (s_statics st).
+
+Lemma bind_typed : forall TS st x i src st', vars_typed TS (s_vars st) -> bind st x i src = Ok st' ->
+  vars_typed TS (s_vars st') /\ s_statics st' = s_statics st.
+Proof.
+  intros TS st x i src st' VT H. apply bind_ok_inv in H as [sv [t [p [S [V [_ ->]]]]]]. simpl. split; [|reflexivity].
+  apply vars_typed_aset; [assumption|]. apply alookup_In in S. pose proof (VT _ _ S) as T.
+  destruct sv; simpl in V; try discriminate; inversion V; subst; exact T.
+Qed.
+
+Lemma run_calls_g_sep : forall TS call, call_basic call -> call_sep TS call -> forall cs st tag rc d st',
+  funcs_typed (s_funcs st) -> closed (s_funcs st) TS -> wf_ctx (s_ctx st) -> vars_typed TS (s_vars st) ->
+  run_calls_g call st tag rc d cs = Ok st' -> sep_frame TS st st'.
+Proof.
+  intros TS call CB CS. induction cs as [|[m c] cs IH]; simpl; intros st tag rc d st' FT CL W VT H.
+  - inversion H; subst. split; auto.
+  - destruct (call st rc m (d + c)%Z) as [[st1 z]|] eqn:C; [|discriminate].
+    destruct (CB _ _ _ _ _ _ W C) as [C1 [_ [F1 _]]].
+    destruct (CS _ _ _ _ _ _ FT CL W VT C) as [V1 S1].
+    assert (sep_frame TS (emit st1 (tag, [z])) st') as [V2 S2].
+    { apply IH with (5 := H); simpl; try rewrite F1; try rewrite C1; assumption. }
+    split; [assumption|]. intros k NK. rewrite (S2 k NK). simpl. apply S1; assumption.
+Qed.
+
+Lemma step_g_sep : forall TS call hs, call_basic call -> call_sep TS call -> forall st o st',
+  funcs_typed (s_funcs st) -> closed (s_funcs st) TS -> wf_ctx (s_ctx st) -> vars_typed TS (s_vars st) ->
+  step_g call hs st o = Ok st' -> sep_frame TS st st'.
+Proof.
+  intros TS call hs CB CS st o st' FT CL W VT H. destruct o; cbn [step_g] in H.
+  - destruct (bind_typed _ _ _ _ _ _ VT H) as [V S]. split; [assumption|]. intros; rewrite S; reflexivity.
+  - destruct (alookup x (s_vars st)); inversion H; subst; simpl. split; [|auto].
+    apply vars_typed_aset; [assumption|exact I].
+  - destruct (call st r m arg) as [[st1 z]|] eqn:C; [|discriminate]. inversion H; subst; simpl.
+    exact (CS _ _ _ _ _ _ FT CL W VT C).
+  - destruct (find _ hs) as [hh|]; [|discriminate].
+    match type of H with match ?E with _ => _ end = _ => destruct E as [st1|] eqn:EN; [|discriminate] end.
+    destruct (run_calls_g call st1 h (RVar (h_param hh)) d (h_calls hh)) as [st2|] eqn:RCs; [|discriminate].
+    inversion H; subst.
+    assert (vars_typed TS (s_vars st1) /\ s_statics st1 = s_statics st /\ s_funcs st1 = s_funcs st /\ s_ctx st1 = s_ctx st) as [V1 [S1 [F1 C1]]].
+    { destruct (h_iface hh).
+      - assert (vars_typed TS (s_vars (set_vars st (aremove (h_param hh) (s_vars st))))) as VR by (simpl; apply vars_typed_aremove; assumption).
+        destruct (bind_typed _ _ _ _ _ _ VR EN) as [V S]. apply bind_ok_inv in EN as [sv [t [p [_ [_ [_ E]]]]]]. subst st1. simpl in *. auto.
+      - destruct (alookup src (s_vars st)) as [[t pl| | |]|] eqn:A; inversion EN; subst; simpl. split; [|auto].
+        apply vars_typed_aset; [assumption|]. apply alookup_In in A. exact (VT _ _ A). }
+    assert (sep_frame TS st1 st2) as [V2 S2].
+    { eapply run_calls_g_sep; eauto; try rewrite F1; try rewrite C1; assumption. }
+    split; simpl.
+    + apply vars_typed_aremove; assumption.
+    + intros k NK. rewrite (S2 k NK). rewrite S1. reflexivity.
+  - destruct (alookup x (s_vars st)) as [[t [fs|v]| | |]|] eqn:A; try discriminate.
+    + destruct (alookup f fs); inversion H; subst; simpl. split; [|auto].
+      apply vars_typed_aset; [assumption|]. apply alookup_In in A. exact (VT _ _ A).
+    + inversion H; subst; simpl. split; [|auto].
+      apply vars_typed_aset; [assumption|]. apply alookup_In in A. exact (VT _ _ A).
+  - destruct (read (s_vars st) (LElem a i)) as [[t [fs|v]| | |]|] eqn:A; try discriminate.
+    destruct (alookup f fs); inversion H; subst. split; [|simpl; auto].
+    change (vars_typed TS (write (s_vars st) (LElem a i) (VConc t (PStruct (aset f z fs))))).
+    apply write_typed; [assumption|]. exact (read_typed _ _ _ _ VT A).
+  - destruct (alookup x (s_vars st)) as [[| | |]|]; inversion H; subst; simpl; split; auto.
+Qed.
+
+Lemma ctx_keys_types : forall (TS : name -> Prop) i t k, TS t -> ctx_keys (Some (i, t)) k -> types_keys TS k.
+Proof. intros TS i t k T [n E]. simpl in E. inversion E. exists i, t, n. auto. Qed.
+
+(* one statement of a body whose type and objects are in TS *)
+Lemma exec_stmt_sep : forall TS run hs g t, run_basic run -> run_sep TS run ->
+  funcs_typed (s_funcs g) -> closed (s_funcs g) TS -> TS t ->
+  forall s fr fr', wf_ctx (f_ctx fr) -> (forall k, ctx_keys (c_cur (f_ctx fr)) k -> types_keys TS k) ->
+  vars_typed TS (f_vars fr) -> exec_stmt run hs g t fr s = inl fr' ->
+  vars_typed TS (f_vars fr') /\ forall k, ~ types_keys TS k -> alookup k (f_statics fr') = alookup k (f_statics fr).
+Proof.
+  intros TS run hs g t RB RS FT CL Tt. induction s as [f e|n e|tag es|tag m e|o|ge s IH]; intros fr fr' W HP VT H; cbn [exec_stmt] in H.
+  - destruct (eval fr e); [|discriminate]. destruct (f_self fr); [|discriminate].
+    destruct (alookup f fs); [|discriminate]. destruct (int_ok z); [|discriminate].
+    inversion H; subst; simpl. auto.
+  - destruct (eval fr e); [|discriminate].
+    destruct (static_name (c_cur (f_ctx fr)) n) as [k|] eqn:SN; [|discriminate].
+    destruct (alookup k (f_statics fr)) eqn:A; [|discriminate]. destruct (int_ok z); [|discriminate].
+    inversion H; subst; simpl. split; [assumption|].
+    intros k' NK. apply alookup_aset_other. intros ->. apply NK. apply HP. exists n. assumption.
+  - destruct (eval_list fr es); [|discriminate]. inversion H; subst; simpl. auto.
+  - destruct (eval fr e); [|discriminate].
+    destruct (nested_self_g run g t m z fr) as [[fr1 r]|] eqn:C; [|discriminate].
+    inversion H; subst; simpl. apply nested_self_g_inv in C as [fe [fr2 [L [R ->]]]]. simpl.
+    split; [assumption|]. intros k NK.
+    apply (RS fe t (f_self fr) z (st_of g fr) fr2 r); simpl; eauto.
+  - destruct (step_g (call_g run) hs (st_of g fr) o) as [st'|] eqn:S; [|discriminate].
+    inversion H; subst; simpl.
+    exact (step_g_sep TS _ hs (call_g_basic _ RB) (call_g_sep _ _ RS) (st_of g fr) o st' FT CL W VT S).
+  - destruct (eval fr ge); [|discriminate]. destruct (0 <? z)%Z.
+    + apply IH; assumption.
+    + inversion H; subst. auto.
+Qed.
+Lemma exec_body_sep : forall TS run hs g t, run_basic run -> run_sep TS run ->
+  funcs_typed (s_funcs g) -> closed (s_funcs g) TS -> TS t ->
+  forall b fr fr', wf_ctx (f_ctx fr) -> (forall k, ctx_keys (c_cur (f_ctx fr)) k -> types_keys TS k) ->
+  vars_typed TS (f_vars fr) -> exec_body run hs g t fr b = inl fr' ->
+  vars_typed TS (f_vars fr') /\ forall k, ~ types_keys TS k -> alookup k (f_statics fr') = alookup k (f_statics fr).
+Proof.
+  intros TS run hs g t RB RS FT CL Tt. induction b as [|s b IH]; simpl; intros fr fr' W HP VT H.
+  - inversion H; subst. auto.
+  - destruct (exec_stmt run hs g t fr s) as [fr1|] eqn:S; [|discriminate].
+    destruct (exec_stmt_basic _ _ _ _ RB _ _ _ W S) as [C1 _].
+    destruct (exec_stmt_sep _ _ _ _ _ RB RS FT CL Tt _ _ _ W HP VT S) as [V1 S1].
+    assert (vars_typed TS (f_vars fr') /\ forall k, ~ types_keys TS k -> alookup k (f_statics fr') = alookup k (f_statics fr1)) as [V2 S2].
+    { apply IH; try rewrite C1; assumption. }
+    split; [assumption|]. intros k NK. rewrite (S2 k NK). apply S1; assumption.
+Qed.
+
+Lemma run_method_g_sep : forall TS run hs, run_basic run -> run_sep TS run -> run_sep TS (run_method_g run hs).
+Proof.
+  intros TS run hs RB RS fe t self arg st fr' z FT CL W Tt Et [k0 L] H k NK.
+  apply run_method_g_inv in H as [B _].
+  assert (forall k1, ctx_keys (c_cur (f_ctx (frame0 fe self arg st))) k1 -> types_keys TS k1) as HP.
+  { simpl. intros k1 CK. eapply ctx_keys_types; [|exact CK]. rewrite Et. assumption. }
+  assert (vars_typed TS (f_vars (frame0 fe self arg st))) as VT.
+  { simpl. apply (CL _ _ L). rewrite Et. assumption. }
+  destruct (exec_body_sep TS run hs st t RB RS FT CL Tt _ (frame0 fe self arg st) fr' (wf_enter _ _) HP VT B) as [_ S].
+  rewrite (S k NK). reflexivity.
+Qed.
+Lemma run_n_sep : forall TS n hs, run_sep TS (run_n n hs).
+Proof.
+  induction n as [|n IH]; intros hs.
+  - intros fe t self arg st fr' z _ _ _ _ _ _ H. discriminate.
+  - simpl. apply run_method_g_sep; [apply run_n_basic|apply IH].
+Qed.
+
+(* a call on a receiver whose type is in a closed set TS changes no static of a pair with a type outside TS *)
+Lemma call_statics_closed_l : forall TS n hs st rc m arg st' z l v t self,
+  funcs_typed (s_funcs st) -> closed (s_funcs st) TS -> wf_ctx (s_ctx st) ->
+  call n hs st rc m arg = Ok (st', z) -> receiver (s_vars st) rc = Some (l, v, t, self) -> TS t ->
+  forall k, ~ types_keys TS k -> alookup k (s_statics st') = alookup k (s_statics st).
+Proof.
+  intros TS n hs st rc m arg st' z l v t self FT CL W H RC Tt k NK.
+  destruct (call_g_ok_inv _ _ _ _ _ _ _ H) as [l0 [v0 [t0 [self0 [fe [RC0 [F IV]]]]]]].
+  rewrite RC in RC0. inversion RC0; subst l0 v0 t0 self0.
+  destruct (invoke_g_ok_inv _ _ _ _ _ _ _ _ _ _ IV) as [fr' [B [_ [S _]]]].
+  rewrite S. eapply (run_n_sep TS n hs); eauto.
+Qed.
+
+(* ---------- a body without calls touches only the statics of the pair that declares it ---------- *)
+Fixpoint is_call (s : stmt) : bool :=
+  match s with
+  | SCallSelf _ _ _ => true
+  | SOp (OCall _ _ _) | SOp (OVia _ _ _) => true
+  | SGuard _ s' => is_call s'
+  | _ => false
+  end.
+Definition has_calls (b : list stmt) : bool := existsb is_call b.
+
+(* operations other than calls do not touch the statics at all *)
+Lemma step_g_noncall_statics : forall call hs st o st', step_g call hs st o = Ok st' ->
+  match o with OCall _ _ _ | OVia _ _ _ => True | _ => s_statics st' = s_statics st end.
+Proof.
+  intros call hs st o st' H. destruct o; cbn [step_g] in H; auto.
+  - apply bind_ok_inv in H as [sv [t [p [_ [_ [_ ->]]]]]]. reflexivity.
+  - destruct (alookup x (s_vars st)); inversion H; reflexivity.
+  - destruct (alookup x (s_vars st)) as [[t [fs|v]| | |]|]; try discriminate.
+    + destruct (alookup f fs); inversion H; reflexivity.
+    + inversion H; reflexivity.
+  - destruct (read (s_vars st) (LElem a i)) as [[t [fs|v]| | |]|]; try discriminate.
+    destruct (alookup f fs); inversion H; reflexivity.
+  - destruct (alookup x (s_vars st)) as [[| | |]|]; inversion H; reflexivity.
+Qed.
+Lemma step_g_noncall_ctx : forall call hs st o st', step_g call hs st o = Ok st' ->
+  match o with OCall _ _ _ | OVia _ _ _ => True | _ => s_ctx st' = s_ctx st end.
+Proof.
+  intros call hs st o st' H. destruct o; cbn [step_g] in H; auto.
+  - apply bind_ok_inv in H as [sv [t [p [_ [_ [_ ->]]]]]]. reflexivity.
+  - destruct (alookup x (s_vars st)); inversion H; reflexivity.
+  - destruct (alookup x (s_vars st)) as [[t [fs|v]| | |]|]; try discriminate.
+    + destruct (alookup f fs); inversion H; reflexivity.
+    + inversion H; reflexivity.
+  - destruct (read (s_vars st) (LElem a i)) as [[t [fs|v]| | |]|]; try discriminate.
+    destruct (alookup f fs); inversion H; reflexivity.
+  - destruct (alookup x (s_vars st)) as [[| | |]|]; inversion H; reflexivity.
+Qed.
+
+Lemma exec_stmt_leaf : forall run hs g t s fr fr', is_call s = false -> exec_stmt run hs g t fr s = inl fr' ->
+  f_ctx fr' = f_ctx fr /\ forall k, ~ ctx_keys (c_cur (f_ctx fr)) k -> alookup k (f_statics fr') = alookup k (f_statics fr).
+Proof.
+  intros run hs g t. induction s as [f e|n e|tag es|tag m e|o|ge s IH]; intros fr fr' NC H; cbn [exec_stmt] in H.
+  - destruct (eval fr e); [|discriminate]. destruct (f_self fr); [|discriminate].
+    destruct (alookup f fs); [|discriminate]. destruct (int_ok z); [|discriminate].
+    inversion H; subst; simpl. auto.
+  - destruct (eval fr e); [|discriminate].
+    destruct (static_name (c_cur (f_ctx fr)) n) as [k|] eqn:SN; [|discriminate].
+    destruct (alookup k (f_statics fr)) eqn:A; [|discriminate]. destruct (int_ok z); [|discriminate].
+    inversion H; subst; simpl. split; [reflexivity|].
+    intros k' NK. apply alookup_aset_other. intros ->. apply NK. exists n. assumption.
+  - destruct (eval_list fr es); [|discriminate]. inversion H; subst; simpl. auto.
+  - discriminate.
+  - destruct (step_g (call_g run) hs (st_of g fr) o) as [st'|] eqn:S; [|discriminate].
+    inversion H; subst; simpl.
+    pose proof (step_g_noncall_statics _ _ _ _ _ S) as E. pose proof (step_g_noncall_ctx _ _ _ _ _ S) as E2.
+    destruct o; simpl in NC; try discriminate; simpl in E, E2; rewrite E, E2; auto.
+  - destruct (eval fr ge); [|discriminate]. destruct (0 <? z)%Z.
+    + apply IH; assumption.
+    + inversion H; subst. auto.
+Qed.
+Lemma exec_body_leaf : forall run hs g t b fr fr', has_calls b = false -> exec_body run hs g t fr b = inl fr' ->
+  f_ctx fr' = f_ctx fr /\ forall k, ~ ctx_keys (c_cur (f_ctx fr)) k -> alookup k (f_statics fr') = alookup k (f_statics fr).
+Proof.
+  intros run hs g t. induction b as [|s b IH]; simpl; intros fr fr' NC H.
+  - inversion H; subst. auto.
+  - destruct (exec_stmt run hs g t fr s) as [fr1|] eqn:S; [|discriminate].
+    unfold has_calls in NC. simpl in NC. apply orb_false_iff in NC as [N1 N2].
+    destruct (exec_stmt_leaf _ _ _ _ _ _ _ N1 S) as [C1 S1].
+    destruct (IH _ _ N2 H) as [C2 S2]. split; [congruence|].
+    intros k NK. rewrite S2 by (rewrite C1; assumption). apply S1; assumption.
+Qed.
+Lemma call_statics_leaf_l : forall n hs st rc m arg st' z l v t self fe,
+  call n hs st rc m arg = Ok (st', z) -> receiver (s_vars st) rc = Some (l, v, t, self) ->
+  alookup (method_key t m) (s_funcs st) = Some fe -> has_calls (m_body (fe_meth fe)) = false ->
+  forall k, ~ ctx_keys (Some (fe_iface fe, fe_type fe)) k -> alookup k (s_statics st') = alookup k (s_statics st).
+Proof.
+  intros n hs st rc m arg st' z l v t self fe H RC F HC k NK.
+  destruct (call_g_ok_inv _ _ _ _ _ _ _ H) as [l0 [v0 [t0 [self0 [fe0 [RC0 [F0 IV]]]]]]].
+  rewrite RC in RC0. inversion RC0; subst l0 v0 t0 self0. rewrite F in F0. inversion F0; subst fe0.
+  destruct (invoke_g_ok_inv _ _ _ _ _ _ _ _ _ _ IV) as [fr' [B [_ [S _]]]].
+  rewrite S. destruct n as [|n]; [discriminate|]. simpl in B. apply run_method_g_inv in B as [B _].
+  destruct (exec_body_leaf _ _ _ _ _ _ _ HC B) as [_ FR]. rewrite FR; [reflexivity|exact NK].
+Qed.
+
+Lemma ctx_keys_other_pair : forall i t i' t' n', no_colon i = true -> no_colon i' = true ->
+  no_colon t = true -> no_colon t' = true -> (i', t') <> (i, t) -> ~ ctx_keys (Some (i, t)) (static_key i' t' n').
+Proof.
+  intros i t i' t' n' Hi Hi' Ht Ht' NE [n H]. unfold static_name in H.
+  assert (static_key i t n = static_key i' t' n') as E by congruence.
+  apply static_key_inj in E as [-> [-> _]]; auto.
+Qed.
+Lemma types_keys_other_type : forall (TS : name -> Prop) i' t' n', no_colon i' = true -> (forall t, TS t -> no_colon t = true) -> no_colon t' = true ->
+  no_colon n' = true -> ~ TS t' -> ~ types_keys TS (static_key i' t' n').
+Proof.
+  intros TS i' t' n' Hi' HT Ht' Hn' NE [i [t [n [Tt E]]]]. pose proof (HT _ Tt) as Ht.
+  assert (no_colon i = true) as Hi.
+  { assert (ncolon (static_key i' t' n') = ncolon (static_key i t n)) as N by (rewrite E; reflexivity).
+    unfold static_key in N. rewrite !ncolon_app in N. simpl in N.
+    apply no_colon_ncolon in Hi'. apply no_colon_ncolon in Ht. apply no_colon_ncolon in Ht'. apply no_colon_ncolon in Hn'.
+    apply no_colon_ncolon. lia. }
+  apply static_key_inj in E as [_ [E _]]; auto. subst t'. contradiction.
+Qed.
+
+(* ---------- binding ---------- *)
 Lemma bind_no_impl_l : forall st x i src sv t p, alookup src (s_vars st) = Some sv -> src_view sv = Some (t, p) ->
   impl_exists (s_impls st) i t = false -> bind st x i src = Fail (s_out st) (ENoImpl i t).
 Proof.
@@ -338,60 +674,23 @@ Proof.
   apply String.eqb_eq in A. apply String.eqb_eq in B. eauto.
 Qed.
 
-(* ---------- whole histories: the static key set is an invariant ---------- *)
-Lemma run_calls_keys : forall cs st tag rc d st', run_calls st tag rc d cs = Ok st' ->
-  keys (s_statics st') = keys (s_statics st).
+(* ---------- whole histories: the static key set and the impl context are invariants ---------- *)
+Lemma step_keys : forall n hs st o st', wf_ctx (s_ctx st) -> step n hs st o = Ok st' ->
+  keys (s_statics st') = keys (s_statics st) /\ s_ctx st' = s_ctx st.
+Proof. intros n hs st o st' W H. destruct (step_g_basic _ hs (call_n_basic n hs) _ _ _ W H) as [C [K _]]. auto. Qed.
+Lemma run_ops_keys : forall n hs os st st', wf_ctx (s_ctx st) -> run_ops n hs st os = Ok st' ->
+  keys (s_statics st') = keys (s_statics st) /\ s_ctx st' = s_ctx st.
 Proof.
-  induction cs as [|[m c] cs IH]; simpl; intros st tag rc d st' H.
-  - inversion H; reflexivity.
-  - destruct (call st rc m (d + c)%Z) as [[st1 z]|] eqn:C; [|discriminate].
-    apply IH in H. simpl in H. rewrite H. apply (call_keys_l _ _ _ _ _ _ C).
+  induction os as [|o os IH]; simpl; intros st st' W H.
+  - inversion H; auto.
+  - destruct (step n hs st o) as [st1|] eqn:S; [|discriminate].
+    destruct (step_keys _ _ _ _ _ W S) as [K1 C1].
+    assert (wf_ctx (s_ctx st1)) as W1 by (rewrite C1; assumption).
+    destruct (IH _ _ W1 H) as [K2 C2]. split; congruence.
 Qed.
-
-Lemma step_keys : forall hs st o st', step hs st o = Ok st' -> keys (s_statics st') = keys (s_statics st).
-Proof.
-  intros hs st o st' H. destruct o; cbn [step] in H.
-  - apply bind_ok_inv in H as [sv [t [p [_ [_ [_ ->]]]]]]. reflexivity.
-  - destruct (alookup x (s_vars st)); inversion H; reflexivity.
-  - destruct (call st r m arg) as [[st1 z]|] eqn:C; [|discriminate]. inversion H; subst; simpl.
-    apply (call_keys_l _ _ _ _ _ _ C).
-  - destruct (find _ hs) as [hh|]; [|discriminate].
-    match type of H with match ?E with _ => _ end = _ => destruct E as [st1|] eqn:EN; [|discriminate] end.
-    destruct (run_calls st1 h (RVar (h_param hh)) d (h_calls hh)) as [st2|] eqn:RCs; [|discriminate].
-    inversion H; subst; simpl. apply run_calls_keys in RCs. rewrite RCs.
-    destruct (h_iface hh).
-    + apply bind_ok_inv in EN as [sv [t [p [_ [_ [_ ->]]]]]]. reflexivity.
-    + destruct (alookup src (s_vars st)) as [[| | |]|]; inversion EN; reflexivity.
-  - destruct (alookup x (s_vars st)) as [[t [fs|v]| | |]|]; try discriminate.
-    + destruct (alookup f fs); inversion H; reflexivity.
-    + inversion H; reflexivity.
-  - destruct (read (s_vars st) (LElem a i)) as [[t [fs|v]| | |]|]; try discriminate.
-    destruct (alookup f fs); inversion H; reflexivity.
-  - destruct (alookup x (s_vars st)) as [[| | |]|]; inversion H; reflexivity.
-Qed.
-
-Lemma run_ops_keys : forall hs os st st', run_ops hs st os = Ok st' -> keys (s_statics st') = keys (s_statics st).
-Proof.
-  induction os as [|o os IH]; simpl; intros st st' H.
-  - inversion H; reflexivity.
-  - destruct (step hs st o) as [st1|] eqn:S; [|discriminate].
-    rewrite (IH _ _ H). eapply step_keys; eauto.
-Qed.
-
-(* operations other than calls do not touch the statics at all *)
-Lemma step_noncall_statics : forall hs st o st', step hs st o = Ok st' ->
+Lemma step_noncall_statics : forall n hs st o st', step n hs st o = Ok st' ->
   match o with OCall _ _ _ | OVia _ _ _ => True | _ => s_statics st' = s_statics st end.
-Proof.
-  intros hs st o st' H. destruct o; cbn [step] in H; auto.
-  - apply bind_ok_inv in H as [sv [t [p [_ [_ [_ ->]]]]]]. reflexivity.
-  - destruct (alookup x (s_vars st)); inversion H; reflexivity.
-  - destruct (alookup x (s_vars st)) as [[t [fs|v]| | |]|]; try discriminate.
-    + destruct (alookup f fs); inversion H; reflexivity.
-    + inversion H; reflexivity.
-  - destruct (read (s_vars st) (LElem a i)) as [[t [fs|v]| | |]|]; try discriminate.
-    destruct (alookup f fs); inversion H; reflexivity.
-  - destruct (alookup x (s_vars st)) as [[| | |]|]; inversion H; reflexivity.
-Qed.
+Proof. intros n hs. apply step_g_noncall_statics. Qed.
 
 (* every declared static is in the table after registration *)
 Lemma add_statics_keys_mono : forall d ss k, In k (keys ss) -> In k (keys (add_statics d ss)).
@@ -429,4 +728,9 @@ Lemma register_all_impls : forall ds r, wf_impls ds -> register_all empty_regist
 Proof.
   intros ds r W R. destruct empty_ok as [A [B C]].
   destruct (register_all_inv _ _ _ W C A B R) as [_ [_ [I S]]]. simpl in I, S. auto.
+Qed.
+
+Lemma registered_funcs_typed : forall ds r, wf_impls ds -> register_all empty_registry ds = inl r -> funcs_typed (r_funcs r).
+Proof.
+  intros ds r W R t n fe H. destruct (dispatch_sound_l _ _ _ _ _ W R H) as [d [m [_ [Ht [_ [_ ->]]]]]]. exact Ht.
 Qed.
